@@ -1014,5 +1014,34 @@ def R4b_token_account_loader(run):
               detail="multisig length, length <= init offset, init byte 0, account-type byte")
 
 
-RULES = [R1_effect_requires_authority, R1e_mutated_accounts_are_mut, R1b_no_unlisted_writers, R1c_migration_exception, R1d_delegated_authority_scope, R2_authority_helpers,
+def R1g_admin_predicate(run):
+    run.title("R1g", "is_admin_key(k) is membership of k in the build's ADMINS table and nothing else (no second table, no disjunct)")
+    facts = run.facts
+    fn = facts.need_fn("auth::admin::is_admin_key")
+    run.touch(fn)
+    pv = prov_of(fn)
+    rets = [pv.local(0, bi, len(bb["s"])) for bi, bb in enumerate(fn.blocks) if bb["t"]["k"] == "ret"]
+    lv = [strip(l) for r in rets for l in leaves(r)]
+    ok = len(lv) == 1 and lv[0][0] == "call" and lv[0][1].rsplit("::", 1)[-1] in ("any", "contains") and len(lv[0][2]) == 2
+    why = "is_admin_key returns %s" % " | ".join(show(l, True)[:120] for l in lv)
+    if ok:
+        recv, other = strip(lv[0][2][0]), lv[0][2][1]
+        ok = recv[0] == "const" and (recv[2] or "").endswith("auth::admin::ADMINS")
+        if ok and lv[0][1].endswith("any"):
+            cl = [x for x in subterms(other) if x[0] == "closure"]
+            cf = facts.fn(cl[0][1]) if len(cl) == 1 else None
+            ok = cf is not None
+            if ok:
+                run.touch(cf)
+                pc = prov_of(cf)
+                cr = [strip(l) for bi, bb in enumerate(cf.blocks) if bb["t"]["k"] == "ret" for l in leaves(pc.local(0, bi, len(bb["s"])))]
+                ok = len(cr) == 1 and ((cr[0][0] == "call" and cr[0][1].rsplit("::", 1)[-1] == "eq") or (cr[0][0] == "bin" and cr[0][1] == "Eq")) and \
+                    mentions(cr[0], lambda x: x[0] in ("param", "upvar", "capture") or (x[0] == "field" and True))
+                why = "the membership test of is_admin_key is %s" % " | ".join(show(x, True)[:120] for x in cr)
+        elif ok:
+            ok = mentions(other, lambda x: x[0] == "param" and x[1] == "maybe_admin")
+    run.check("R1g", "admin-predicate", ok, why + "; expected ADMINS.iter().any(|a| key == a)", loc=fn.loc(), detail="ADMINS.iter().any(|admin| maybe_admin == admin)")
+
+
+RULES = [R1_effect_requires_authority, R1g_admin_predicate, R1e_mutated_accounts_are_mut, R1b_no_unlisted_writers, R1c_migration_exception, R1d_delegated_authority_scope, R2_authority_helpers,
          R3_pinocchio_labelling, R4_token_view_layout, R4b_token_account_loader]
